@@ -669,3 +669,33 @@ pub fn gen_c04_mutate(r: &mut Rng) -> (bool, String) {
     }
     (r.chance(1, 6), lines.join("\n"))
 }
+
+/// duration tokens around every radix boundary of humantime's format
+pub fn duration_sweep() -> Vec<String> {
+    let mut v = vec![];
+    let secs: &[u64] = &[
+        0, 1, 59, 60, 61, 90, 3599, 3600, 3601, 86399, 86400, 86401, 2630015, 2630016, 2630017, 31557599,
+        31557600, 31557601, 63115200, 34187616, 1_000_000_000, u64::MAX / 2, u64::MAX - 1, u64::MAX,
+    ];
+    let nanos: &[u32] = &[0, 1, 999, 1000, 1001, 999_999, 1_000_000, 1_500_000, 999_999_999, 500_000_000, 1_001_001];
+    for s in secs {
+        for n in nanos {
+            let mut t = String::new();
+            if *s > 0 || *n == 0 {
+                t.push_str(&format!("{}s", s));
+            }
+            if *n > 0 {
+                t.push_str(&format!("{}ns", n));
+            }
+            v.push(t);
+        }
+    }
+    for k in 0..19 {
+        v.push(format!("{}ms", 10u64.pow(k)));
+        v.push(format!("{}us", 15 * 10u64.pow(k.min(17))));
+    }
+    for t in ["1h30m", "2days", "1w", "1M", "1y", "1year1month1day1h1m1s1ms1us1ns", "3weeks2d", "90min", "1hr"] {
+        v.push(t.to_string());
+    }
+    v
+}
